@@ -35,7 +35,9 @@ def bounded(rep, tier, seed):
     n = 0
     # -n mode
     for expr, want_out, want_b in [("1 + 2", "3", 2), ("true", "true", 0), ("false", "false", 1), ('"a" + "b"', '"ab"', 2),
-                                   ("[1, 2].map(x, x * 2)", "[2, 4]", 2), ("1 / 0", None, 2), ("2 > 1", "true", 0), ("null", "null", 2)]:
+                                   ("[1, 2].map(x, x * 2)", "[2, 4]", 2), ("1 / 0", None, 2), ("2 > 1", "true", 0), ("null", "null", 2),
+                                   ("[1, true]", "[1, true]", 2), ("[1, [false]]", "[1, [false]]", 2), ('{"a": [1, false], "b": true}', '{"a": [1, false], "b": true}', 2),
+                                   ('["x", {"flag": false}]', '["x", {"flag": false}]', 2), ("[true, 1]", "[true, 1]", 2), ("[1.5, null, true]", "[1.5, null, true]", 2)]:
         n += 2
         st, out, err = run_main(["-n", expr])
         if want_out is None:
